@@ -909,7 +909,7 @@ func (s *State) extendFunctionEnv(
 		// (constant names go through the variable path and its 'attempt to change constant' check)
 		// (and names of extension functions: same refusal as without registers)
 		if !s.NoReg && pval.Type() == object.INTEGER && !object.Constant(param.Value().Literal()) &&
-			!object.IsExtraFunction(param.Value().Literal()) {
+			!object.IsExtraFunction(param.Value().Literal()) && !magicIdentifier(param.Value().Literal()) {
 			// We will release all these registers just by returning/dropping the env.
 			_, nbody, ok := setupRegister(env, param.Value().Literal(), pval.(object.Integer).Value, newBody)
 			if ok {
@@ -1028,6 +1028,12 @@ func ModifyRegister(register *object.Register, in ast.Node) (ast.Node, bool) {
 	return in, true
 }
 
+// info and self are resolved by the environment before any variable of that name: a parameter or loop variable
+// named like them is not held in a register (it would be read instead of them, unlike without registers).
+func magicIdentifier(name string) bool {
+	return name == "info" || name == "self"
+}
+
 func setupRegister(env *object.Environment, name string, value int64, body ast.Node) (object.Register, ast.Node, bool) {
 	if !env.HasRegisters() {
 		// All registers are in use (e.g more than 8 integer parameters or nested loops): use a plain variable.
@@ -1080,7 +1086,7 @@ func (s *State) evalForIntegerReg(fe *ast.ForExpression, start *int64, end int64
 	newBody = fe.Body
 	if loopReg != nil {
 		ptr = loopReg.Ptr()
-	} else if name != "" && !s.NoReg && !object.Constant(name) && !object.IsExtraFunction(name) {
+	} else if name != "" && !s.NoReg && !object.Constant(name) && !object.IsExtraFunction(name) && !magicIdentifier(name) {
 		var ok bool
 		register, newBody, ok = setupRegister(s.env, name, int64(startValue), fe.Body)
 		if ok {
